@@ -2,7 +2,7 @@
    least-squares specification over the reals (Proofs/LfqSpec.v).  The theorems over R depend on the axioms of Coq's
    real numbers, listed by Print Assumptions below. *)
 From Coq Require Import Reals.
-From PGF Require Import Base.Prelude Base.PyStr Base.StableSort Model.Quant Model.Lfq Proofs.LfqProofs Proofs.LfqScale Proofs.LfqSpec.
+From PGF Require Import Base.Prelude Base.PyStr Base.StableSort Model.Quant Model.Lfq Proofs.LfqProofs Proofs.LfqScale Proofs.LfqRename Proofs.LfqSpec.
 
 (* ----- exact layer (Q) ----- *)
 Local Open Scope Q_scope.
@@ -77,6 +77,22 @@ Theorem C11_sample_permutation_refuted :
   ~ ((3 # 4) == / (3 # 2))%Q.
 Proof. exact median_not_reciprocal. Qed.
 Print Assumptions C11_sample_permutation_refuted.
+
+(* "unaffected by how experiments are named": every exact stage (peptide-intensity matrix, total, median ratios, the symbolic
+   log-ratio expressions after large-ratio stabilisation) is the same after a renaming of the experiments that PRESERVES THEIR
+   ORDER (str_compare); a renaming that changes the order of the names is a sample permutation, which the theorem above refutes *)
+Theorem C11_order_preserving_renaming_invariant : forall (f : str -> str),
+  (forall a b, str_compare (f a) (f b) = str_compare a b) ->
+  forall cut exps ns minr stab graph ms l,
+  lfq_exact cut (map f exps) ns minr stab graph ms (map (rename f) l) = lfq_exact cut exps ns minr stab graph ms l.
+Proof. exact lfq_exact_rename. Qed.
+Print Assumptions C11_order_preserving_renaming_invariant.
+
+(* non-vacuity: prefixing every name with a fixed string preserves the order (checked on samples) *)
+Example C11_renaming_witness :
+  str_compare (s2l "x_" ++ s2l "E10") (s2l "x_" ++ s2l "E2") = str_compare (s2l "E10") (s2l "E2") /\
+  str_compare (s2l "x_" ++ s2l "a") (s2l "x_" ++ s2l "a") = Eq.
+Proof. split; vm_compute; reflexivity. Qed.
 
 Local Close Scope Q_scope.
 (* ----- specification layer (R) ----- *)
